@@ -335,7 +335,32 @@ def shard_selection(shard, nshards, seed, nsubsets):
             for t in logics:
                 check_selection(run, sorted(sup, key=str), t, name)
 
+    def factory_queries(rnd):
+        """Solvers that declare a list of logics (never launched): the factory's support queries and its
+        pre-selection must agree with 'some declared logic is at least as expressive as the target'."""
+        from pysmt.environment import Environment
+        env = Environment()
+        decl = {}
+        for i in range(3):
+            decl["gen%d" % i] = rnd.sample(logics, rnd.randint(1, 3))
+            env.factory.add_generic_solver("gen%d" % i, ["/bin/false"], decl["gen%d" % i])
+        for t in rnd.sample(logics, 25):
+            got = env.factory.all_solvers(logic=t)
+            for name, dl in decl.items():
+                want = any(t <= l for l in dl)
+                run.case(key=("factory", name, str(t), tuple(map(str, dl))), nontrivial=True)
+                run.cls("factory-support-query")
+                if (name in got) != want:
+                    run.fail({"subcheck": "select:factory-support"},
+                             {"declared": [str(l) for l in dl], "target": str(t)},
+                             "all_solvers(logic=%s) %s a solver declaring %s" % (
+                                 t, "lists" if name in got else "omits", [str(l) for l in dl]))
+            if env.factory.has_solvers(logic=t) != bool(got):
+                run.fail({"subcheck": "select:factory-support"}, {"target": str(t)}, "has_solvers(%s) disagrees with all_solvers" % t)
+
     def body(rnd):
+        for _ in range(max(1, nsubsets // 4)):
+            factory_queries(rnd)
         for _ in range(nsubsets):
             k = rnd.randint(1, 20)
             sup = rnd.sample(logics, k)
